@@ -7,12 +7,12 @@
     Nodes are addressed by their path from the root (slot indexes; Model.Reroot.paths lists
     them in the order of Tree.Nodes()); [vec_at t vt p] is the count vector the model holds at
     that node ([nth y v 0 = 1]: state y is reported there).
-    Proofs in Proofs/Parsimony{Vec,Hartigan,Reroot,Main,Ctx,Down,Final,Acctran,Tips,Unamb,Deltran,Inst,Embed,Site}.v. *)
+    Proofs in Proofs/Parsimony{Vec,Hartigan,Reroot,Main,Ctx,Down,Final,Acctran,Tips,Unamb,Deltran,Inst,Embed,Site,Random,Misc}.v. *)
 From Coq Require Import String ZArith QArith Bool Arith List.
-From GT Require Import Base.UTree Spec.Obs Spec.Parsimony Model.Reroot Model.Parsimony
+From GT Require Import Base.UTree Spec.Obs Spec.Parsimony Model.Reroot Model.Parsimony Model.ParsimonyRand
      Proofs.ParsimonyVec Proofs.ParsimonyHartigan Proofs.ParsimonyReroot Proofs.ParsimonyMain
      Proofs.ParsimonyCtx Proofs.ParsimonyDown Proofs.ParsimonyFinal Proofs.ParsimonyAcctran
-     Proofs.ParsimonyTips Proofs.ParsimonyUnamb Proofs.ParsimonyDeltran Proofs.ParsimonyInst Proofs.ParsimonyEmbed Proofs.ParsimonySite.
+     Proofs.ParsimonyTips Proofs.ParsimonyUnamb Proofs.ParsimonyDeltran Proofs.ParsimonyInst Proofs.ParsimonyEmbed Proofs.ParsimonySite Proofs.ParsimonyRandom Proofs.ParsimonyMisc.
 Import ListNotations.
 Local Close Scope Q_scope.
 Local Open Scope string_scope.
@@ -378,3 +378,119 @@ Example C12_example_hypotheses :
   match parsimony_acr ex_tree ex_states Deltran with Ok r => acr_steps r = 4 | Err _ => False end.
 Proof. vm_compute. repeat split; auto. Qed.
 Print Assumptions C12_example_hypotheses.
+
+(** * random resolution (randomResolve = true; Model/ParsimonyRand.v), for EVERY source of
+      choices whose draws are below their bound (the recorded rand stream, any list of choices) *)
+
+(** the number of steps is unchanged *)
+Theorem C12_rr_steps :
+  forall (S : Type) (draw : nat -> S -> nat * S) tv k T skip a s,
+    snd (fst (parsimony_r S draw skip tv k a T s)) = snd (parsimony skip tv k a T).
+Proof. exact rr_steps. Qed.
+Print Assumptions C12_rr_steps.
+
+(** exactly one state at every inner node, for the three algorithms *)
+Theorem C12_rr_inner_single :
+  forall (S : Type) (draw : nat -> S -> nat * S),
+    (forall b s, 0 < b -> fst (draw b s) < b) ->
+    forall tv ts k T,
+      wf T = true -> 2 <= degree T ->
+      (forall n, In n (leaves T) -> tip_ok tv ts k n) ->
+      forall skip a s, a <> NoPass ->
+        forall w, In w (vinners (rr_vt S draw tv k T skip a s)) -> single w.
+Proof. exact rr_inner_single. Qed.
+Print Assumptions C12_rr_inner_single.
+
+(** DOWNPASS and DELTRAN: the state kept at an inner node belongs to the set the plain
+    DOWNPASS reports there, hence occurs at that node in a most-parsimonious labelling *)
+Theorem C12_rr_down_sound :
+  forall (S : Type) (draw : nat -> S -> nat * S),
+    (forall b s, 0 < b -> fst (draw b s) < b) ->
+    forall tv ts k T,
+      wf T = true -> 2 <= degree T ->
+      (forall n, In n (leaves T) -> tip_ok tv ts k n) ->
+      forall skip a s q x v, a = Downpass \/ a = Deltran ->
+        node_at T q = Some x -> is_leaf x = false ->
+        vec_at T (rr_vt S draw tv k T skip a s) q = Some v ->
+        forall y, nth y v 0 = 1 -> opt_state_at ts T q y.
+Proof. exact rr_down_sound. Qed.
+Print Assumptions C12_rr_down_sound.
+
+(** ACCTRAN (choices made top-down, each child rewritten with the state kept above it):
+    the full labelling is most parsimonious, whatever the choices *)
+Theorem C12_rr_acctran_optimal :
+  forall (S : Type) (draw : nat -> S -> nat * S),
+    (forall b s, 0 < b -> fst (draw b s) < b) ->
+    forall tv ts k T,
+      wf T = true -> 2 <= degree T ->
+      (forall n, In n (leaves T) -> tip_ok tv ts k n) ->
+      forall skip s, optimal ts T (lab_of T (rr_vt S draw tv k T skip Acctran s)).
+Proof. exact rr_acctran_optimal. Qed.
+Print Assumptions C12_rr_acctran_optimal.
+
+(** DOWNPASS resolves every node independently of the state kept above it, DELTRAN picks
+    freely in the final set of a node when the state kept above is not in it: the labelling
+    can cost more than the minimum.
+    Witnesses: (a,b,(c,d)) with a=c=0, b=d=1, choices 0,1: 3 changes instead of 2 (DOWNPASS);
+    (a,b,(c,d,e)) with a=c=0, b=1, d=e=2, choices 1,0: 4 changes instead of 3 (DELTRAN). *)
+Theorem C12_rr_downpass_labelling_optimal_refuted :
+  exists cs, let R := fst (fst (parsimony_r (list nat) draw_list false rw_tv1 2 Downpass rw_tree1 cs)) in
+    is_mincost rw_ts1 rw_tree1 (up_steps rw_tv1 2 rw_tree1) /\
+    up_steps rw_tv1 2 rw_tree1 < cost rw_ts1 rw_tree1 (lab_of rw_tree1 R).
+Proof. exact downpass_random_resolve_optimal_refuted. Qed.
+Print Assumptions C12_rr_downpass_labelling_optimal_refuted.
+
+Theorem C12_rr_deltran_labelling_optimal_refuted :
+  exists cs, let R := fst (fst (parsimony_r (list nat) draw_list false rw_tv2 3 Deltran rw_tree2 cs)) in
+    is_mincost rw_ts2 rw_tree2 (up_steps rw_tv2 3 rw_tree2) /\
+    up_steps rw_tv2 3 rw_tree2 < cost rw_ts2 rw_tree2 (lab_of rw_tree2 R).
+Proof. exact deltran_random_resolve_optimal_refuted. Qed.
+Print Assumptions C12_rr_deltran_labelling_optimal_refuted.
+
+(** a list of choices is such a source; ParsimonyAcr with random resolution is defined on it *)
+Theorem C12_rr_choice_lists :
+  forall b cs, 0 < b -> fst (draw_list b cs) < b.
+Proof. exact draw_list_lt. Qed.
+Print Assumptions C12_rr_choice_lists.
+
+Theorem C12_rr_acr_result :
+  forall m t a cs,
+    wf t = true -> 2 <= degree t ->
+    (forall n, In n (leaves t) -> exists s, lookup n m = Some s) ->
+    exists r cs', parsimony_acr_r (list nat) draw_list t m a cs = Ok (r, cs') /\
+      acr_vecs r = vflat (rr_vt (list nat) draw_list (acr_tv m) (acr_k m) t false a cs) /\
+      acr_steps r = up_steps (acr_tv m) (acr_k m) t.
+Proof. exact parsimony_acr_r_ok. Qed.
+Print Assumptions C12_rr_acr_result.
+
+(** * characters outside the IUPAC table in a nucleotide alignment (X . ? and the star): the tip
+      gets no state; such a tip adds exactly one step at its parent, at every such site, and
+      does not contribute to the parent's vector (documented behaviour, outside the property) *)
+Theorem C12_stateless_tip_costs_one_step :
+  forall tv k n cm sl i e d,
+    nth_error sl i = Some (Some (e, d)) ->
+    Nat.eqb (length (uslots d)) 1 = true -> tv (uname d) = vzero k ->
+    Nat.eqb (length sl) 1 = false ->
+    vroot (fst (uppass tv k (UNode n cm sl))) = vroot (fst (uppass tv k (UNode n cm (set_nth i None sl)))) /\
+    snd (uppass tv k (UNode n cm sl)) = S (snd (uppass tv k (UNode n cm (set_nth i None sl)))).
+Proof. exact stateless_tip_costs_one_step. Qed.
+Print Assumptions C12_stateless_tip_costs_one_step.
+
+Theorem C12_unknown_characters_have_no_state :
+  forall c, iupac (upper c) = [] -> nt_vec c = vzero 6.
+Proof. exact nt_vec_unknown. Qed.
+Print Assumptions C12_unknown_characters_have_no_state.
+
+(** * the returned map (buildInternalNamesToStatesMap): one entry per key; when several inner
+      nodes have the same key (same name, or a name equal to the id of an unnamed node) the
+      entry holds the states of the last of them in pre-order *)
+Theorem C12_acr_map_last_wins :
+  forall t alpha vs key,
+    lookup key (acr_map_of t alpha vs) = lookup key (rev (map_entries t alpha vs)).
+Proof. exact acr_map_last_wins. Qed.
+Print Assumptions C12_acr_map_last_wins.
+
+Theorem C12_acr_map_keys_unique :
+  forall t alpha vs, NoDup (map fst (acr_map_of t alpha vs)).
+Proof. exact acr_map_keys_unique. Qed.
+Print Assumptions C12_acr_map_keys_unique.
